@@ -106,7 +106,7 @@ func secondView(r *core.Run, id, tier string, fn props.CheckFunc) {
 			nviol++
 		}
 	}
-	if nviol == 0 || os.Getenv("GCV_NOINLINE") != "" {
+	if (nviol == 0 && !r.HasUndecided()) || os.Getenv("GCV_NOINLINE") != "" {
 		return
 	}
 	r2 := core.NewRun(id, tier)
@@ -121,6 +121,12 @@ func secondView(r *core.Run, id, tier string, fn props.CheckFunc) {
 		fn(r2)
 	}()
 	if r2 == nil {
+		return
+	}
+	if r.HasUndecided() {
+		if !r2.HasUndecided() {
+			r.AdoptSecondView(r2)
+		}
 		return
 	}
 	ok2 := map[string]string{}
